@@ -18,39 +18,40 @@ Section WithEnv.
   Definition entry_pos (offset entsize index : N) : N :=
     Z.to_N (to_signed64 offset + Z.of_N (entsize * index))%Z.
 
+  (* What is written is planned first — a list of (position, bytes), each
+     executed as adjust_stream_size( stream, position ); stream.write( bytes ) —
+     and then applied to the stream: the plan does not depend on the stream's state. *)
+  Definition wplan := list (N * bytes).
+
+  Definition exec_write (os : ostream) (w : N * bytes) : ostream :=
+    write (adjust_stream_size os (fst w)) (snd w).
+  Definition exec_plan (os : ostream) (p : wplan) : ostream := fold_left exec_write p os.
+
   (* section_impl::save *)
-  Definition section_save (enc : endian) (st : option istream) (t : xlat) (s : section)
-             (hpos : N) (os : ostream) : res (option istream * section * ostream) :=
+  Definition section_plan (enc : endian) (st : option istream) (t : xlat) (s : section) (hpos : N)
+    : res (option istream * section * wplan) :=
     let s1 := if s_index s =? 0 then s else with_offset s (sh_offset s) in
-    let os1 := write (adjust_stream_size os hpos) (shdr_bytes enc s1) in
     if negb (sh_type s1 =? SHT_NOBITS) && negb (sh_type s1 =? SHT_NULL) && negb (sh_size s1 =? 0) &&
        (match s_data s1 with Some _ => true | None => false end) then
-      let os2 := adjust_stream_size os1 (sh_offset s1) in
       (* stream.write( get_data(), get_size() ) *)
       '(st1, s2, _) <- sec_get_data junk st t s1 ;;
       d <- rd (s_data s2) 0 (sh_size s2) ;;
-      Ok (st1, s2, write os2 d)
-    else Ok (st, s1, os1).
+      Ok (st1, s2, [(hpos, shdr_bytes enc s1); (sh_offset s1, d)])
+    else Ok (st, s1, [(hpos, shdr_bytes enc s1)]).
 
-  Fixpoint save_sections (enc : endian) (h : ehdr) (t : xlat) (st : option istream) (done todo : list section)
-           (os : ostream) : res (option istream * list section * ostream) :=
+  Fixpoint sections_plan (enc : endian) (h : ehdr) (t : xlat) (st : option istream) (done todo : list section)
+           (acc : wplan) : res (option istream * list section * wplan) :=
     match todo with
-    | [] => Ok (st, done, os)
+    | [] => Ok (st, rev_append done [], acc)
     | s :: rest =>
         let hpos := entry_pos (e_shoff h) (e_shentsize h) (s_index s) in
-        '(st1, s1, os1) <- section_save enc st t s hpos os ;;
-        save_sections enc h t st1 (done ++ [s1]) rest os1
+        '(st1, s1, w) <- section_plan enc st t s hpos ;;
+        sections_plan enc h t st1 (s1 :: done) rest (acc ++ w)
     end.
 
   (* segment_impl::save *)
-  Fixpoint save_segments (enc : endian) (h : ehdr) (segs : list segment) (os : ostream) : ostream :=
-    match segs with
-    | [] => os
-    | g :: rest =>
-        let hpos := entry_pos (e_phoff h) (e_phentsize h) (g_index g) in
-        let os1 := write (adjust_stream_size os hpos) (phdr_bytes enc g) in
-        save_segments enc h rest os1
-    end.
+  Definition segments_plan (enc : endian) (h : ehdr) (segs : list segment) : wplan :=
+    map (fun g => (entry_pos (e_phoff h) (e_phentsize h) (g_index g), phdr_bytes enc g)) segs.
 
   (* the data of lazily loaded sections/segments is requested before the
      layout re-assigns offsets (since the C15 fix) *)
@@ -86,12 +87,13 @@ Section WithEnv.
                 let '(os1, ok1) := save_header h (el_xlat el1) os in
                 if negb ok1 then Ok (el1, os1, false)
                 else
-                  '(st1, secs1, os2) <- save_sections (e_enc h) h (el_xlat el1) (el_stream el1) [] (el_secs el1) os1 ;;
+                  '(st1, secs1, plan_s) <- sections_plan (e_enc h) h (el_xlat el1) (el_stream el1) [] (el_secs el1) [] ;;
+                  let os2 := exec_plan os1 plan_s in
                   let el2 := with_stream (with_secs el1 secs1) st1 in
                   if os_abort os2 then Fault Abort     (* uncaught std::length_error / std::bad_alloc *)
                   else if os_bad os2 then Ok (el2, os2, false)      (* save_sections returns stream.good() (C16 fix) *)
                   else
-                    let os3 := save_segments (e_enc h) h (el_segs el1) os2 in
+                    let os3 := exec_plan os2 (segments_plan (e_enc h) h (el_segs el1)) in
                     if os_abort os3 then Fault Abort
                     else Ok (el2, os3, negb (os_bad os3))           (* save_segments returns stream.good() *)
             end
